@@ -593,6 +593,27 @@ package rtpconn
 //@   modifies nothing
 //@   ensures new: result != nil && fresh(result) && !held(result.mu)
 //@
+//@ -- C13: the session's group and connection are read and written from several goroutines (HTTP handlers, pion callbacks, other clients'
+//@ -- requests, the group's kicks): only under the client's mutex
+//@ guarded WhipClient.mu: group connection
+//@
+//@ func (*WhipClient).Group
+//@   safe
+//@   props C13 C12
+//@   requires nonnil: c != nil
+//@   -- context assumption: callers do not hold the client's own mutex (group.DelClient calls it before taking the group's)
+//@   assume unlocked: !held(c.mu)
+//@   modifies held(c.mu)
+//@   ensures unlocked: !held(c.mu)
+//@
+//@ func (*WhipClient).RequestConns
+//@   props C13 C12
+//@   requires nonnil: c != nil
+//@   assume unlocked: !held(c.mu)
+//@   modifies *
+//@   invariant loop 1 free: !held(c.mu)
+//@   ensures unlocked: !held(c.mu)
+//@
 //@ func (*WhipClient).Token
 //@   safe
 //@   pure
